@@ -7,9 +7,9 @@ def jobs(tier):
             for be in ((0,) if w==1 else (0,1)):
                 name='rd-pack-w%d-s%d-be%d'%(w,sg,be)
                 defs=['-DWORD=%d'%w,'-DSG=%d'%sg,'-DBE=%d'%be,'-DCH=%d'%ch,'-DNS=%d'%ns]
-                common=dict(unwind=ch*ns*2+4,object_bits=12,functions=['ov_read','ov_read_filter','ov_info','host_is_big_endian','vorbis_ftoi'],
+                common=dict(unwind=ch*ns*2+4,object_bits=12,cuts={'vorbisfile.c':['_fetch_and_process_packet']},functions=['ov_read','ov_read_filter','ov_info','host_is_big_endian','vorbis_ftoi'],
                     models=['M-sse: CVTSD2SI per Intel SDM (validated by tools/diff_sse.c)','M-dsp: pcmout exposes arbitrary floats'])
-                J.append(Job(name,'C17/rd_pack.c',defs=defs,witnesses=['rejected','clipped high','clipped low','full frame set','second link with different channel count'],
+                J.append(Job(name,'C17/rd_pack.c',defs=defs,witnesses=['rejected','clipped high','clipped low','full frame set','second link with different channel count','link crossed inside the call'],
                     bounds='format (word=%d,signed=%d,bigendian=%d); <=%d channels x <=%d frames; every float with |x*2^(8w-1)|<2^31, not NaN (complement is finding D13)'%(w,sg,be,ch,ns),**common))
                 if (w,sg,be) in ((2,1,0),(1,0,0)):
                     J.append(Job(name+'-D13','C17/rd_pack.c',defs=defs+['-DD13'],witness=False,known=['D13'],
